@@ -43,6 +43,93 @@ def witnesses():
     return [sg.make_hist(900001, (4096, 128, 1, 1), ["t0", "t1", "t2"], w1)]
 
 
+def gen_keydel_hist(g, hid, big=False):
+    """DELETE exactness x key-range scan: a keyed table (INT primary key in column 0, unique keys,
+    C13's hypotheses) whose row-sets span SEVERAL blocks (small block sizes, or one big INSERT), and
+    DELETEs whose predicate is a range on the key - the planner pushes the bound into the scan, which
+    then SEEKS into the row-set while carrying the row-handler column.  The bounds lie anywhere in the
+    key space, mostly beyond the first blocks.  The reported count and the table afterwards must be
+    the model's / the oracle's."""
+    r = g.r
+    d = sg.TableDef("t0", [("a", "INT", True, True), ("b", "INT", False, False)])
+    if big:
+        opts = (256 << 20, 16384, r.choice([0, 1]), 1)
+        sizes = [9000, 12500]
+    else:
+        opts = (r.choice([256 << 20, 1 << 20, 16384, 4096]), r.choice([32, 64, 128, 128, 1024]), r.choice([0, 1]), r.choice([1, 1, 0]))
+        sizes = [300, 600, 700, 1100]
+    g.count("keydel:block=%d" % opts[1])
+    steps = [{"k": "create", "def": d, "sql": d.sql()}]
+    live = set()
+    nxt = [0]
+
+    def ins(n, dense):
+        ks = []
+        while len(ks) < n:
+            # dense: consecutive keys (a row-set = one key interval); sparse: keys interleave with the other row-sets
+            k = nxt[0] if dense else r.randrange(-2000, 40000)
+            nxt[0] += 1 if dense else 0
+            if k not in live and k not in ks:
+                ks.append(k)
+        if dense:
+            nxt[0] = max(nxt[0], max(ks) + 1)
+        r.shuffle(ks)
+        live.update(ks)
+        rows = [(k, g.gen_val("INT", False)) for k in ks]
+        sql = "insert into t0 values %s" % ", ".join("(%s, %s)" % (sg.sql_lit(a, "INT"), sg.sql_lit(b, "INT")) for a, b in rows)
+        return {"k": "insert", "table": "t0", "rows": rows, "def": d, "sql": sql}
+
+    def dele():
+        keys = sorted(live) or [0]
+        # bound positions: mostly past the first blocks, up to and past the end
+        pos = r.choice([0.3, 0.45, 0.55, 0.6, 0.75, 0.9, 0.98, r.random()])
+        c = keys[min(len(keys) - 1, int(pos * len(keys)))] + r.choice([0, 0, 1])
+        form = r.random()
+        if form < 0.45:
+            op = r.choice(["ge", "gt"])
+            p = ("cmp", 0, op, c)
+            sql = "delete from t0 where a %s %d" % (sg.OPS[op], c)
+        elif form < 0.85:
+            hi = c + r.choice([1, 5, 40, 300, 5000])
+            lo_op, hi_op = r.choice(["gt", "ge"]), r.choice(["lt", "le"])
+            p = ("and", ("cmp", 0, lo_op, c), ("cmp", 0, hi_op, hi))
+            sql = "delete from t0 where a %s %d and a %s %d" % (sg.OPS[lo_op], c, sg.OPS[hi_op], hi)
+        elif form < 0.93:
+            p = ("cmp", 0, "eq", c)
+            sql = "delete from t0 where a = %d" % c
+        else:
+            op = r.choice(["lt", "le"])
+            p = ("cmp", 0, op, c)
+            sql = "delete from t0 where a %s %d" % (sg.OPS[op], c)
+        g.count("keydel:delete-by-key-range")
+
+        def holds(q, k):
+            if q[0] == "and":
+                return holds(q[1], k) and holds(q[2], k)
+            return {"ge": k >= q[3], "gt": k > q[3], "lt": k < q[3], "le": k <= q[3], "eq": k == q[3]}[q[2]]
+        for k in [k for k in live if holds(p, k)]:
+            live.discard(k)
+        return {"k": "delete", "table": "t0", "pred": p, "def": d, "sql": sql}
+
+    steps.append(ins(r.choice(sizes), r.random() < 0.5))
+    for _ in range(r.choice([0, 0, 1, 2]) if not big else 0):
+        steps.append(ins(r.choice([40, 300, 600]), r.random() < 0.5))
+    steps.append(dele())
+    for _ in range(r.randint(2, 6) if not big else 2):
+        x = r.random()
+        if x < 0.5:
+            steps.append(dele())
+        elif x < 0.65:
+            steps.append(ins(r.choice([40, 300, 600]), r.random() < 0.5))
+        elif x < 0.8:
+            steps.append({"k": "compact"})
+        elif x < 0.9:
+            steps.append({"k": "reopen"})
+        else:
+            steps.append({"k": "vacuum"})
+    return sg.make_hist(hid, opts, ["t0", "t1", "t2"], steps)
+
+
 def load_corpus():
     out = []
     for p in sorted(glob.glob(os.path.join(vlib.VERIF, "corpus", PROP, "*.json"))):
@@ -59,7 +146,14 @@ def run(ck):
         ck.report("build:harness", "harness does not build against the repository", replay={"log": log[-2000:]}, found_input=False)
         return ck.finish(level="proof")
     g = sg.Gen(ck.seed * 7919 + 7, "c07")
-    hists = [g.history(i, weights=WEIGHTS, bulk=(i % 8 == 0)) for i in range(n)]
+    hists = []
+    for i in range(n):
+        if i % 4 == 2:
+            # every fourth history: DELETE by key range over multi-block keyed row-sets (one in ten of
+            # those with a > 8200-row INSERT and 16 KiB blocks)
+            hists.append(gen_keydel_hist(g, i, big=(i % 40 == 2)))
+        else:
+            hists.append(g.history(i, weights=WEIGHTS, bulk=(i % 8 == 0)))
     fixed = witnesses() + load_corpus()
     totals, samples = {}, []
     ck.log("running %d witness/corpus histories and %d generated histories" % (len(fixed), len(hists)))
@@ -77,7 +171,7 @@ def run(ck):
         "evaluations": len(hists) + len(fixed),
         "steps": totals.get("steps", 0),
         "distinct_nontrivial": distinct,
-        "rule": "generated histories over create/insert/delete/compact/vacuum/reopen x storage options; non-trivial = some table reached >= 2 row-sets AND a DELETE removed >= 1 row; distinct = distinct request lines",
+        "rule": "generated histories over create/insert/delete/compact/vacuum/reopen x storage options; every fourth history is a keyed table (INT primary key) with row-sets of several blocks and DELETEs by KEY RANGE (pushed-down bound: the DELETE's scan seeks into the row-set carrying the row-handler column), count and contents compared with model and oracle; non-trivial = some table reached >= 2 row-sets AND a DELETE removed >= 1 row; distinct = distinct request lines",
         "samples": samples,
         "model_vs_impl": {"compared": totals.get("mi", 0), "disagree": totals.get("mi_bad", 0)},
         "impl_vs_oracle": {"compared": totals.get("io", 0), "disagree": totals.get("io_bad", 0)},
